@@ -8,7 +8,11 @@
 //
 //	explore <limit> <eplimit> <nreq> <npaths> <pre 0|1>   every order of arrive/cancel/finish (DFS by re-execution)
 //	random  <seed> <count> <nreq> <npaths>                 random walks, including multi-event windows (also several calls made in one window)
-//	replay  cfg L E ; ev ; ev & ev ; … ; idle              one given history
+//	burst   <seed> <count> <lo> <hi>                       random histories that start with a burst of lo..hi requests for ONE path
+//	                                                       (one call per window, so the arrival order is known), which is then drained by
+//	                                                       completions, thinned by cancellations of waiters and topped up by new arrivals
+//	replay  cfg L E ; ev ; ev & ev ; … ; idle              one given history; `arrive A..B P`, `finish A..B`, `cancel A..B` stand for
+//	                                                       one line per id (ascending, or descending when A > B)
 //
 // Output ($VERIF_OUT): one line per executed history, `cfg L E ; ev | obs ; … ; idle | entries n probe ok`.
 package c16
@@ -260,7 +264,7 @@ func (s *sim) probe(limit, eplimit int64) string {
 		synctest.Wait()
 		run := s.runningIDs()
 		if len(run) != len(ids) {
-			return fmt.Sprintf("blocked:%d-of-%d-on-%v", len(run), len(ids), paths)
+			return fmt.Sprintf("blocked:%d-of-%d-on-%s", len(run), len(ids), joinInts(paths))
 		}
 		for _, id := range ids {
 			s.apply(event{kind: "finish", id: id})
@@ -509,6 +513,105 @@ func randomWalk(t *testing.T, rng *rand.Rand, nreq, npaths int) string {
 	return h
 }
 
+// burstWalk: a burst of n requests for path 0 (one call per window; a few calls for path 1 in between), far more than the
+// path admits, then a long tail in which the burst is drained: completions (mostly), cancellations of waiters (front, back,
+// middle of the queue), a trickle of new arrivals, now and then two events in one window.  Three temperaments: pure drain,
+// drain with cancellations, churn (every completion is followed by a cancellation and a new arrival).
+func burstWalk(t *testing.T, rng *rand.Rand, lo, hi int) string {
+	eplimit := int64(1 + rng.Intn(2))
+	if rng.Intn(6) == 0 {
+		eplimit = 3
+	}
+	limit := []int64{0, 0, eplimit, eplimit + 1, 1}[rng.Intn(5)]
+	n := lo + rng.Intn(hi-lo+1)
+	temper := rng.Intn(3)
+	extra := 0
+	if temper > 0 {
+		extra = n/4 + rng.Intn(n/2+1)
+	}
+	nextID := 0
+	burst := int(eplimit) + n
+	steps := 0
+	h, _ := runHistory(t, limit, eplimit, nil, true, func(st status) (line, bool) {
+		steps++
+		if steps > 8*(burst+extra) {
+			return nil, false
+		}
+		arrive := func(p int) event {
+			e := event{kind: "arrive", id: nextID, path: p}
+			nextID++
+			return e
+		}
+		if nextID < burst {
+			if rng.Intn(12) == 0 {
+				burst++
+				return line{arrive(1)}, true
+			}
+			return line{arrive(0)}, true
+		}
+		run := map[int]bool{}
+		for _, id := range st.running {
+			run[id] = true
+		}
+		var waiting []int
+		for _, id := range st.arrived {
+			if !st.returned[id] && !st.cancelled[id] && !run[id] {
+				waiting = append(waiting, id)
+			}
+		}
+		cancelOne := func() (event, bool) {
+			if len(waiting) == 0 {
+				return event{}, false
+			}
+			var id int
+			switch rng.Intn(4) {
+			case 0:
+				id = waiting[0]
+			case 1:
+				id = waiting[len(waiting)-1]
+			default:
+				id = waiting[rng.Intn(len(waiting))]
+			}
+			return event{kind: "cancel", id: id}, true
+		}
+		finishOne := func() (event, bool) {
+			if len(st.running) == 0 {
+				return event{}, false
+			}
+			return event{kind: "finish", id: st.running[rng.Intn(len(st.running))]}, true
+		}
+		var e event
+		ok := false
+		r := rng.Intn(100)
+		switch {
+		case temper == 0 || r < 55:
+			e, ok = finishOne()
+		case r < 80:
+			e, ok = cancelOne()
+		case extra > 0:
+			extra--
+			e, ok = arrive(0), true
+		}
+		if !ok {
+			if e, ok = finishOne(); !ok {
+				if e, ok = cancelOne(); !ok {
+					return nil, false
+				}
+			}
+		}
+		l := line{e}
+		if temper == 2 && e.kind == "finish" {
+			// churn: the completion is followed, each in its own window, by a cancellation and a new arrival - emitted as the next
+			// steps through the ordinary choice above; here only the rare same-window pair
+			if c, ok := cancelOne(); ok && rng.Intn(8) == 0 && c.id != e.id {
+				l = append(l, c)
+			}
+		}
+		return l, true
+	})
+	return h
+}
+
 func parseHistory(f []string) (int64, int64, []line, bool, error) {
 	segs := strings.Split(strings.Join(f, " "), ";")
 	var limit, eplimit int64
@@ -532,6 +635,32 @@ func parseHistory(f []string) (int64, int64, []line, bool, error) {
 			continue
 		}
 		if w[0] == "panic" {
+			continue
+		}
+		if len(w) >= 2 && strings.Contains(w[1], "..") && !strings.Contains(strings.Join(w, " "), "&") {
+			// bulk form: one line per id
+			ab := strings.SplitN(w[1], "..", 2)
+			a, err1 := strconv.Atoi(ab[0])
+			b, err2 := strconv.Atoi(ab[1])
+			if err1 != nil || err2 != nil || a < 0 || b < 0 || a-b > 1<<16 || b-a > 1<<16 {
+				return 0, 0, nil, false, fmt.Errorf("bad range %q", w[1])
+			}
+			e := event{kind: w[0]}
+			if len(w) > 2 {
+				e.path, _ = strconv.Atoi(w[2])
+			}
+			for id := a; ; {
+				e.id = id
+				lines = append(lines, line{e})
+				if id == b {
+					break
+				}
+				if a <= b {
+					id++
+				} else {
+					id--
+				}
+			}
 			continue
 		}
 		var l line
@@ -569,6 +698,12 @@ func TestC16(t *testing.T) {
 			rng := rand.New(rand.NewSource(seed))
 			for i := 0; i < atoi(f[2]); i++ {
 				fmt.Fprintln(w, randomWalk(t, rng, 1+rng.Intn(atoi(f[3])), atoi(f[4])))
+			}
+		case len(f) == 5 && f[0] == "burst":
+			seed, _ := strconv.ParseInt(f[1], 10, 64)
+			rng := rand.New(rand.NewSource(seed))
+			for i := 0; i < atoi(f[2]); i++ {
+				fmt.Fprintln(w, burstWalk(t, rng, atoi(f[3]), atoi(f[4])))
 			}
 		case len(f) > 1 && f[0] == "replay":
 			limit, eplimit, lines, idle, err := parseHistory(f[1:])
